@@ -1,15 +1,17 @@
 ----------------------------- MODULE QuantRule -----------------------------
 (***************************************************************************)
-(* The memoryless quantizer rule of Quantizer.tla (C08) at the REAL scale   *)
-(* (12 pitch classes, 11 octaves of notes, voltages in units of 1/12 uV),   *)
-(* with the scale A, the input u and a second input u2 >= u left symbolic:  *)
-(* Apalache shows for EVERY non-empty scale and EVERY pair of inputs in     *)
-(* [0 V, 10 V] that the rule is well defined, answers with an allowed note, *)
-(* answers with the bucket note when there is one and with a nearest        *)
-(* allowed note otherwise, reproduces an allowed note's own voltage, and is *)
-(* monotone in the input (which TLC can only enumerate for 3 or 4 pitch     *)
-(* classes).                                                                *)
+(* The memoryless quantizer rule of Quantizer.tla (C08) in REAL units (12    *)
+(* pitch classes, voltages in units of 1/12 uV) over three octaves of notes *)
+(* (0..35; the rule is the same in every octave, and eleven octaves exceed  *)
+(* what Apalache finishes in an hour here), with the scale A, two inputs    *)
+(* u <= u2 and the answers r, r2 of the rule left symbolic: for EVERY       *)
+(* non-empty scale and EVERY pair of inputs in [0 V, 2 V] (24 million       *)
+(* values each) the answer is an allowed note, is the                       *)
+(* bucket note when there is one and a nearest allowed note otherwise,      *)
+(* reproduces an allowed note's own voltage and is monotone in the input    *)
+(* (TLC can only enumerate this for 3 or 4 pitch classes).                  *)
 (*   apalache-mc check --init=Init --inv=Inv --length=0 QuantRule.tla       *)
+(*   apalache-mc check --init=InitAny --inv=Defined --length=0 QuantRule.tla *)
 (***************************************************************************)
 EXTENDS Integers, FiniteSets
 
@@ -19,37 +21,48 @@ VARIABLES
   \* @type: Int;
   u,
   \* @type: Int;
-  u2
+  u2,
+  \* @type: Int;
+  r,
+  \* @type: Int;
+  r2
 
 PC == 12
 SU == 1000000
-Top == 131
-VMax == 120000000
+Top == 35
+VMax == 24000000
 
 Volt(n) == n * SU
 AbsQ(x) == IF x < 0 THEN -x ELSE x
 
-Cands == {n \in 0..Top : (n % PC) \in A}
-Bucket(v) == {n \in Cands : Volt(n) <= v /\ v < Volt(n) + SU}
-Nearest(v) == {n \in Cands : \A m \in Cands : AbsQ(Volt(n) - v) <= AbsQ(Volt(m) - v)}
-RuleSet(v) == IF Bucket(v) # {} THEN Bucket(v) ELSE Nearest(v)
-Rule(v) == CHOOSE n \in RuleSet(v) : \A m \in RuleSet(v) : n <= m
+Cand(n) == (n % PC) \in A
+InBucket(n, v) == Cand(n) /\ Volt(n) <= v /\ v < Volt(n) + SU
+HasBucket(v) == \E n \in 0..Top : InBucket(n, v)
+IsNearest(n, v) == Cand(n) /\ \A m \in 0..Top : Cand(m) => AbsQ(Volt(n) - v) <= AbsQ(Volt(m) - v)
+InRuleSet(n, v) == IF HasBucket(v) THEN InBucket(n, v) ELSE IsNearest(n, v)
+\* n = Rule(A, v): the lowest member of the rule set
+IsRule(n, v) == n \in 0..Top /\ InRuleSet(n, v) /\ \A m \in 0..Top : InRuleSet(m, v) => n <= m
 
-Init ==
+InitAny ==
   /\ A \in SUBSET (0..11)
   /\ A # {}
   /\ u \in 0..VMax
   /\ u2 \in 0..VMax
   /\ u <= u2
+  /\ r \in 0..Top
+  /\ r2 \in 0..Top
 
-Next == UNCHANGED <<A, u, u2>>
+Init == InitAny /\ IsRule(r, u) /\ IsRule(r2, u2)
+
+Next == UNCHANGED <<A, u, u2, r, r2>>
+
+\* the rule always has an answer
+Defined == \E n \in 0..Top : InRuleSet(n, u)   \* a non-empty finite set has a lowest member
 
 Inv ==
-  /\ RuleSet(u) # {}
-  /\ Rule(u) \in Cands
-  /\ (Rule(u) % PC) \in A
-  /\ (Bucket(u) # {} => (Volt(Rule(u)) <= u /\ u < Volt(Rule(u)) + SU))
-  /\ (Bucket(u) = {} => \A m \in Cands : AbsQ(Volt(Rule(u)) - u) <= AbsQ(Volt(m) - u))
-  /\ Rule(u) <= Rule(u2)
-  /\ \A n \in Cands : n <= 120 => (u = Volt(n) => Rule(u) = n)
+  /\ (r % PC) \in A
+  /\ (HasBucket(u) => (Volt(r) <= u /\ u < Volt(r) + SU))
+  /\ (~HasBucket(u) => \A m \in 0..Top : Cand(m) => AbsQ(Volt(r) - u) <= AbsQ(Volt(m) - u))
+  /\ r <= r2
+  /\ \A n \in 0..24 : (Cand(n) /\ u = Volt(n)) => r = n
 =============================================================================
